@@ -38,7 +38,7 @@ REQUIRED_LABELS = {"kind:array": 0.15, "kind:number": 0.15, "kind:sequence": 0.1
 
 
 def budget(tier):
-    n = int(os.environ.get("KV_EXAMPLES", 0)) or (6400 if tier == "quick" else 80000)
+    n = int(os.environ.get("KV_EXAMPLES", 0)) or (24000 if tier == "quick" else 80000)
     return {"examples": n, "shards": 16, "wall": 90 if tier == "quick" else 900}
 
 
